@@ -145,8 +145,9 @@ type SpecSet struct {
 	Lemmas    []*Lemma
 	Defines   map[string]*Define
 	UFuns     map[string]*UFun
-	Guarded   map[string]string // heap key "T.f" -> mutex field name
-	OnceGuard map[string]string // heap key "T.f" -> sync.Once field name
+	Guarded   map[string]string   // heap key "T.f" -> mutex field name
+	GuardTags map[string][]string // heap key "T.f" -> properties under which the lock discipline of the field is checked
+	OnceGuard map[string]string   // heap key "T.f" -> sync.Once field name
 	Trans     map[string]*Transition
 }
 
@@ -294,8 +295,18 @@ func (ss *SpecSet) parseFile(path string, dep bool) error {
 			if ss.Guarded == nil {
 				ss.Guarded = map[string]string{}
 			}
-			for _, f := range splitLocs(rest[:i]) {
+			// optional tags: guarded [C10,C14] T.cleanups by mu  (default: C14, the lock-discipline property)
+			gtags, fields := parseTags(rest[:i] + " ")
+			if gtags == nil {
+				gtags = []string{"C14"}
+			}
+			if ss.GuardTags == nil {
+				ss.GuardTags = map[string][]string{}
+			}
+			for _, f := range splitLocs(fields) {
+				f = strings.TrimSpace(f)
 				ss.Guarded[f] = strings.TrimSpace(rest[i+4:])
+				ss.GuardTags[f] = gtags
 			}
 			cur = nil
 		case "transition":
